@@ -15,7 +15,8 @@ rsync -a --delete --exclude 'found-*' /verif/regressions/ "$base/verif/regressio
 [ -d /verif/corpus ] && rsync -a /verif/corpus "$base/verif/"
 grep -rl '/repo' "$base/verif/harness" --include=Cargo.toml --include='*.rs' --include=config.toml --include=build.rs 2>/dev/null | xargs -r sed -i "s#/repo#$base/repo#g"
 sed -i "s#/repo/Cargo.lock#$base/repo/Cargo.lock#g" "$base/verif/check"
-git apply "$patch" || { echo "PATCH DOES NOT APPLY"; exit 3; }
+git apply "$patch" 2>/dev/null || git apply --3way "$patch" 2>/dev/null || { echo "PATCH DOES NOT APPLY"; git checkout -q -- .; exit 3; }
+git reset -q 2>/dev/null
 rc_all=0
 for id in "$@"; do
   out="$("$base/verif/check" "$id" quick 2>&1)"; rc=$?
